@@ -168,7 +168,14 @@ std::vector<std::string> snapshot(const std::string& path) {
 
 static int alloc_fd(std::shared_ptr<Inode> ino, int flags, const std::string& path) {
   World& w = g_world;
-  int fd = w.next_fd++;
+  int fd;
+  if (w.hand_out_fd0 && !w.fd0_is_virtual) {
+    fd = 0; // lowest free number of a process without stdin
+    w.fd0_is_virtual = true;
+    w.hand_out_fd0 = false;
+  } else {
+    fd = w.next_fd++;
+  }
   OpenFile of;
   of.ino = ino;
   of.flags = flags;
@@ -199,7 +206,7 @@ size_t open_fd_count() {
   return n;
 }
 
-static bool is_virtual(int fd) { return fd >= FD_BASE; }
+static bool is_virtual(int fd) { return fd >= FD_BASE || (fd == 0 && g_world.fd0_is_virtual); }
 
 static OpenFile* live_fd(int fd) {
   OpenFile* of = fd_entry(fd);
@@ -745,7 +752,7 @@ int __wrap_open(const char* path, int flags, ...) {
   }
   if ((flags & O_TRUNC) && n->kind == Kind::REG && (flags & O_ACCMODE) != O_RDONLY) n->data.clear();
   int fd = alloc_fd(n, flags, p);
-  vsim::ev("open", fd - FD_BASE, flags);
+  vsim::ev("open", fd ? fd - FD_BASE : 999999, flags);
   return fd;
 }
 
